@@ -34,11 +34,30 @@ def _lattice(seed):
     return d, {'lattice': d.lattice_opts}
 
 
+@family('directed')
+def _directed(seed):
+    from . import decks
+    return decks.directed_deck(seed), {}
+
+
 @family('hexlattice')
 def _hexlattice(seed):
     from . import decks
     d = decks.hex_deck(seed)
     return d, {'lattice': d.lattice_opts}
+
+
+def _pick(fails, per_label=3, total=80):
+    """At most `per_label` failures of each distinct label (so that frequent known findings cannot crowd out a new
+    kind of failure), `total` at most."""
+    seen = {}
+    out = []
+    for f in fails:
+        k = (f.get('property'), f.get('label'))
+        seen[k] = seen.get(k, 0) + 1
+        if seen[k] <= per_label:
+            out.append(f)
+    return out[:total]
 
 
 def _norm_label(f):
@@ -85,6 +104,11 @@ def deck_sweep(prop, tier, seed, families=('level0',), n_quick=48, n_thorough=60
         for i in range(n):
             s = seed * 100003 + i
             units.append(((fam, s), (fam, s, [prop], kw or {})))
+    if 'level0' in families or 'fill' in families:
+        # the hand-made decks (input shapes random generation meets too rarely) go with every flat / filled sweep
+        from .decks import N_DIRECTED
+        for i in range(N_DIRECTED):
+            units.append((('directed', i), ('directed', i, [prop], kw or {})))
     t0 = time.time()
     res = run_units(units, _one, unit_timeout=300)
     fails, evals, pts, nontriv, errors = [], 0, 0, 0, []
@@ -105,7 +129,7 @@ def deck_sweep(prop, tier, seed, families=('level0',), n_quick=48, n_thorough=60
             'probe_points_located': pts, 'exhaustive': False,
             'rule': f'{n} seeded decks per family {list(families)} (seed base {seed}); a deck is non-trivial when at '
                     'least one probe point was located by the oracle and more than one volume was written',
-            'failures': fails[:10], 'harness_errors': errors[:3], 'wall_s': round(time.time() - t0, 1)}
+            'failures': _pick(fails), 'harness_errors': errors[:3], 'wall_s': round(time.time() - t0, 1)}
 
 
 FLAG_SETS = [(), ('--skip-deduplication',), ('--always-inline-filling',), ('--always-inline-filled',),
@@ -171,6 +195,8 @@ def _flags_one(fam, seed, tier):
 def flag_sweep(prop, tier, seed, families=('fill', 'lattice', 'level0'), n_quick=10, n_thorough=150):
     n = n_quick if tier == 'quick' else n_thorough
     units = [((fam, seed * 100003 + i), (fam, seed * 100003 + i, tier)) for fam in families for i in range(n)]
+    from .decks import N_DIRECTED
+    units += [(('directed', i), ('directed', i, tier)) for i in range(N_DIRECTED)]
     t0 = time.time()
     res = run_units(units, _flags_one, unit_timeout=600)
     fails, evals, nontriv, runs = [], 0, 0, 0
@@ -189,4 +215,4 @@ def flag_sweep(prop, tier, seed, families=('fill', 'lattice', 'level0'), n_quick
             'combination; owner and composition of every probe point compared with the default run)',
             'evaluations': evals, 'distinct_nontrivial': nontriv, 'conversions': runs, 'exhaustive': False,
             'rule': f'{n} seeded decks per family {list(families)}; non-trivial when at least two option combinations '
-                    'converted', 'failures': fails[:10], 'wall_s': round(time.time() - t0, 1)}
+                    'converted', 'failures': _pick(fails), 'wall_s': round(time.time() - t0, 1)}
